@@ -17,9 +17,6 @@
       [claim_iff_preimage] is stated for histories without parameter changes. *)
 From Irismod Require Import Htlc.Model Htlc.Proofs Htlc.Examples.
 
-Definition same_denoms (P P' : list aparam) : Prop :=
-  forall d, get_param P d = None <-> get_param P' d = None.
-
 Definition lim_core (a : asup) : Prop := as_out a <= as_cur a /\ 0 <= as_tlc a.
 
 Record InvCore (s : state) : Prop := mkInvCore {
@@ -44,18 +41,6 @@ Proof.
   exists a. unfold lim_core. auto 10.
 Qed.
 
-Lemma wfc_params P P' id c : same_denoms P P' -> wfc P id c -> wfc P' id c.
-Proof.
-  intros SD (H1 & H2 & H3 & H4 & H5 & H6 & H7 & H8). unfold wfc. repeat (split; [assumption|]).
-  destruct (c_transfer c); [|exact H8]. destruct H8 as [(d & x & Ha & Hp) Hd]. split; [|exact Hd].
-  exists d, x. split; [exact Ha|]. intros Hn. apply Hp. apply SD. exact Hn.
-Qed.
-
-Lemma same_denoms_lookup P P' d p' : same_denoms P P' -> get_param P' d = Some p' -> exists p, get_param P d = Some p.
-Proof.
-  intros SD Hp'. destruct (get_param P d) as [p|] eqn:E; [eauto|]. apply SD in E. congruence.
-Qed.
-
 Lemma inv_core_after_param_change_lemma s P' : InvCore s -> same_denoms (st_params s) P' -> InvCore (set_params s P').
 Proof.
   intros C SD. unfold set_params. constructor; sproj; try apply C.
@@ -63,26 +48,10 @@ Proof.
   - intros d p' Hp'. destruct (same_denoms_lookup _ _ _ _ SD Hp') as (p & Hp). exact (ic_asset _ C d p Hp).
 Qed.
 
-(** the new limits cover the current usage of every asset *)
-Definition covers (s : state) (P' : list aparam) : Prop :=
-  forall d p' a, get_param P' d = Some p' -> get d (st_assets s) = Some a ->
-    lim_ok p' a /\ (ap_tl p' = true -> as_tlc a = sup_of (st_win s) d).
-
-Lemma inv_after_compatible_param_change_lemma s P' : Inv s -> Strict s ->
-  same_denoms (st_params s) P' -> covers s P' ->
-  Inv (set_params s P') /\ Strict (set_params s P').
-Proof.
-  intros I S SD CV. split; [|exact S]. unfold set_params. constructor; sproj; try apply I.
-  - intros id c Hin. exact (wfc_params _ _ _ _ SD (inv_wfc _ I _ _ Hin)).
-  - intros d p' Hp'. destruct (same_denoms_lookup _ _ _ _ SD Hp') as (p & Hp).
-    destruct (inv_asset _ I d p Hp) as (a & Ha & H1 & H2 & H3 & H4 & _ & _).
-    destruct (CV d p' a Hp' Ha) as [L W]. exists a. auto 10.
-Qed.
-
 (** ... and everything that follows a compatible change is covered by the theorems again *)
 Lemma run_after_compatible_param_change s P' ops : Inv s -> Strict s ->
-  same_denoms (st_params s) P' -> covers s P' -> Forall wf_op ops ->
-  Inv (run (set_params s P') ops) /\ Strict (run (set_params s P') ops) /\ st_params (run (set_params s P') ops) = P'.
+  same_denoms (st_params s) P' -> covers s P' -> wf_run (set_params s P') ops ->
+  Inv (run (set_params s P') ops) /\ Strict (run (set_params s P') ops).
 Proof.
   intros I S SD CV W. destruct (inv_after_compatible_param_change_lemma s P' I S SD CV) as [I' S'].
   exact (run_inv ops _ I' S' W).
@@ -115,12 +84,37 @@ Proof.
   cbv zeta.
   assert (HP : params_ok exP) by (repeat constructor; simpl; lia).
   assert (HE : escrow_empty exB) by (intros d; reflexivity).
-  assert (W : Forall wf_op [Create (mkCreate 3 0 [(0, 200)] (8, ts0) ts0 50 true)]) by (repeat constructor; simpl; discriminate).
-  destruct (reach_inv exP exB (ts0 * ns) _ HP HE W) as (I & _ & HPm). unfold reachable in *.
+  assert (W : wf_run (init exP exB (ts0 * ns)) [Create (mkCreate 3 0 [(0, 200)] (8, ts0) ts0 50 true)])
+    by (simpl; repeat split; discriminate).
+  destruct (reach_inv exP exB (ts0 * ns) _ HP HE W) as (I & _). unfold reachable in *.
   assert (SD : same_denoms (st_params (run (init exP exB (ts0 * ns)) [Create (mkCreate 3 0 [(0, 200)] (8, ts0) ts0 50 true)])) exCut).
-  { rewrite HPm. intros d. unfold get_param, exP, exCut. simpl. destruct d; simpl; split; intros; try discriminate; reflexivity. }
+  { replace (st_params (run (init exP exB (ts0 * ns)) [Create (mkCreate 3 0 [(0, 200)] (8, ts0) ts0 50 true)])) with exP by (vm_compute; reflexivity).
+    intros d. unfold get_param, exP, exCut. simpl. destruct d; simpl; split; intros; try discriminate; reflexivity. }
   split; [exact I|]. split; [exact SD|].
   split; [eexists; split; [vm_compute; reflexivity|split; vm_compute; reflexivity]|].
   split; [vm_compute; reflexivity|]. split; [vm_compute; reflexivity|].
   exact (inv_core_after_param_change_lemma _ _ (inv_core_of_inv _ I) SD).
+Qed.
+
+(** the parameter-independent clauses survive ANY sequence of parameter changes that keep the denoms ... *)
+Lemma inv_core_after_param_changes : forall Ps s, InvCore s ->
+  (forall P', In P' Ps -> same_denoms (st_params s) P') ->
+  InvCore (fold_left set_params Ps s).
+Proof.
+  induction Ps as [|P' Ps IH]; intros s C H; simpl; [exact C|].
+  apply IH; [exact (inv_core_after_param_change_lemma s P' C (H P' (or_introl eq_refl)))|].
+  intros P'' Hin d. unfold set_params. sproj. rewrite <- (H P' (or_introl eq_refl) d). exact (H P'' (or_intror Hin) d).
+Qed.
+
+(** ... and the WHOLE invariant is back as soon as a change installs limits that cover the usage again:
+    after an incompatible cut, a later change (or the usage shrinking and any later covering change)
+    restores every theorem about the histories that follow *)
+Lemma inv_restored_by_covering_change s P' : InvCore s -> Strict s ->
+  same_denoms (st_params s) P' -> covers s P' -> Inv (set_params s P') /\ Strict (set_params s P').
+Proof.
+  intros C S SD CV. split; [|exact S]. unfold set_params. constructor; sproj; try apply C.
+  - intros id c Hin. exact (wfc_params _ _ _ _ SD (ic_wfc _ C _ _ Hin)).
+  - intros d p' Hp'. destruct (same_denoms_lookup _ _ _ _ SD Hp') as (p & Hp).
+    destruct (ic_asset _ C d p Hp) as (a & Ha & H1 & H2 & H3 & H4 & _).
+    destruct (CV d p' a Hp' Ha) as [L W]. exists a. auto 10.
 Qed.
